@@ -273,6 +273,14 @@ def clean(stmts: list) -> list:
                 continue
             st = ast.Assign(targets=[st.target], value=st.value)
         st = _StripMessages().visit(copy.deepcopy(st))
+        if (isinstance(st, ast.Assign) and len(st.targets) == 1 and isinstance(st.targets[0], ast.Tuple)
+                and isinstance(st.value, ast.Tuple) and len(st.value.elts) == len(st.targets[0].elts)
+                and all(isinstance(t, ast.Name) for t in st.targets[0].elts) and all(is_cheap(v) for v in st.value.elts)
+                and not ({t.id for t in st.targets[0].elts} & names_in(st.value))
+                and len({t.id for t in st.targets[0].elts}) == len(st.targets[0].elts)):
+            # a, b = x, y  (cheap values that do not mention a or b)  ==  a = x; b = y
+            out += [ast.Assign(targets=[t], value=v) for t, v in zip(st.targets[0].elts, st.value.elts)]
+            continue
         for fld in ("body", "orelse", "finalbody"):
             if isinstance(getattr(st, fld, None), list) and not isinstance(st, (ast.FunctionDef, ast.ClassDef, ast.Lambda)):
                 setattr(st, fld, clean(getattr(st, fld)))
@@ -373,6 +381,8 @@ def find_helper(call: ast.Call, ctx: Ctx):
             c = [n for n in cls.body if isinstance(n, ast.FunctionDef) and n.name == nm]
             if len(c) == 1 and plain_decorators(c[0]):
                 return c[0], True
+            if len(c) == 1 and [dotted(d) for d in c[0].decorator_list] == ["staticmethod"]:
+                return c[0], False
             if c:
                 return None
         return None
